@@ -105,4 +105,16 @@ CHECKS = {
         text="Every invalid-batch kind (wrong root, path, leaf, hash, shifted / out-of-range / too-high index, swapped roots) and every wrong-dimension kind (each array one too long or short, one ragged row, empty) must make ProveInsertion/ProveDeletion return an error and no proof without panicking; a valid batch must yield a proof that VerifyX accepts for own, own+r, own+2r, own+4r and rejects for own+-1, another batch's hash, a random value and 0, and that the other mode's system and an independent setup of the same dimensions reject.",
         note="Trusted: Groth16 soundness/completeness ('every other public input' is sampled). Dimensions (2,2), (3,2), (2,1).",
     ),
+    "C12": dict(
+        level="other",
+        technique="trace validation against the TLA+ monitor Artifacts.tla: the run plan is derived from the spec by TLC, every build (BuildR1CS, Setup, ImportSetup, `gnark-mbu r1cs`) runs in a fresh process under a chosen GOMAXPROCS and records its constraint-system digest / public-input count / error, and TLC accepts the recorded history only if it keeps the digest registry functional",
+        text="Same (mode, depth, batch) => byte-identical constraint system on every construction path, in every process and under every GOMAXPROCS tried; exactly one public input (gnark's constant wire excluded); deletion depth 32, 33, 63, 64, 100 refused on every path while depth <= 31 (and insertion depth 32) builds. The spec is a monitor: the schedules that matter are inside the Go runtime and gnark's compiler, so this is evidence by repeated execution, not exploration — level 'other'.",
+        note="Trusted: SHA-256; GOMAXPROCS as the only external scheduling knob. The import path is compiled with key files of other dimensions where no matching setup was exported.",
+    ),
+    "C17": dict(
+        level="translation_validation",
+        technique="definition-by-definition comparison of the committed Lean model with extractions of the current Go circuits at (30,4) (library and CLI, fresh processes, varying GOMAXPROCS), recorded as a trace and validated by TLC against the Artifacts.tla monitor (CommittedIsCurrent, ExtractFunctional, RefsResolve, SweepOk)",
+        text="Programs = the 54 definitions of formal-verification/FormalVerification.lean; each must be textually identical to the same-named definition extracted from the current circuits, the whole-file digests must agree, repeated extractions at (30,4) and at a sweep of other dimensions (incl. two-block keccak inputs: batch >= 3) must be identical and succeed, and every SemaphoreMTB identifier used by Main.lean and FormalVerification/*.lean must be defined in the committed model. On disagreement the replay file carries the unified diff.",
+        note="Textual equality is stronger than semantic equality (a reordering that does not change meaning is reported); that is what 'exactly what extraction produces' asks for.",
+    ),
 }
